@@ -53,6 +53,17 @@ MUTANTS["C01"] = [
      "        key = Op.ADDED if diff.get(Op.ADDED) else Op.MOVED\n        yield (True, diff[key][0][\"row\"], diff[key][0][\"children\"] if key == Op.ADDED else None)"),
 ]
 
+MUTANTS["C01"] += [
+    # reverts of the two repository fixes found by the Junos-like device simulator
+    ("junos-delete-prefix-without-word-boundary", "annet/annlib/tabparser.py", '                elif key.startswith("delete "):\n                    cmds = (', '                elif key.startswith("delete"):\n                    cmds = ('),
+    ("nokia-delete-prefix-without-word-boundary", "annet/annlib/tabparser.py", '                if key.startswith("delete "):\n                    cmd = " ".join((self.patch_set_prefix, "delete",', '                if key.startswith("delete"):\n                    cmd = " ".join((self.patch_set_prefix, "delete",'),
+    ("ordered-removals-inside-recreated-block", "annet/annlib/rulebook/common.py", '        _drop_removed(diff[Op.MOVED][0]["children"])\n', '        pass\n'),
+    # (round-2 seed C01-4, re-expressed on the repaired tree: the clean-up drops the whole (rule,key) entry, so a child whose value changed is not re-added)
+    ("ordered-recreated-block-loses-changed-children", "annet/annlib/rulebook/common.py", '            diff[Op.REMOVED] = []\n            for op in (Op.ADDED, Op.AFFECTED, Op.MOVED):', '            if diff[Op.REMOVED]:\n                diff[Op.ADDED] = []\n            diff[Op.REMOVED] = []\n            for op in (Op.ADDED, Op.AFFECTED, Op.MOVED):'),
+    ("junos-leaf-block-set-dropped", "annet/annlib/tabparser.py", '                    cmds = (\n                        " ".join((self.patch_set_prefix, *_prev, key.strip())),\n                    )', '                    cmds = (\n                        " ".join((self.patch_set_prefix, *_prev[:1], key.strip())),\n                    )'),
+    ("nokia-delete-lacks-parent-path", "annet/annlib/tabparser.py", 'cmd = " ".join((self.patch_set_prefix, "delete", *_prev, key.replace("delete", "", 1).strip()))', 'cmd = " ".join((self.patch_set_prefix, "delete", *_prev[-1:], key.replace("delete", "", 1).strip()))'),
+]
+
 MUTANTS["C06"] = [
     ("children-from-first-match-only", "annet/annlib/patching.py", "        for (rule, is_cr_allowed) in map(operator.itemgetter(0), matches):\n            if is_cr_allowed:", "        for (rule, is_cr_allowed) in map(operator.itemgetter(0), matches[:1]):\n            if is_cr_allowed:"),
     ("global-inheritance-dropped", "annet/annlib/patching.py", '    global_children = merge_dicts(global_children, rules["global"])\n', '    global_children = merge_dicts(global_children, rules["global"]) if not local_children else global_children\n'),
